@@ -13,6 +13,7 @@ import re
 
 from ..core import astutil as au
 from ..core.report import AnalysisError
+from ..core.template import find, has
 
 LEVEL = 'other'
 PARSER = 'emg3d/cli/parser.py'
@@ -59,6 +60,18 @@ def parse_docs(text):
 
 class ParserWalk:
     def __init__(self, fn):
+        c = find('_c_ = configparser.ConfigParser(inline_comment_prefixes=__)',
+                 fn) or find('_c_ = configparser.ConfigParser()', fn)
+        if len(c) != 1:
+            raise AnalysisError('anchor vanished: ConfigParser instance in '
+                                'parse_config_file')
+        self.cfg = c[0][1]['_c_']
+        self.args = au.params(fn)[0]
+        t = find(f'_t_[_k_] = {self.args}.pop(_k_)', fn)
+        if not t:
+            raise AnalysisError('anchor vanished: terminal dict in '
+                                'parse_config_file')
+        self.term = t[0][1]['_t_']
         self.bind = {}
         self.dicts = {}
         self.sections = {}
@@ -85,7 +98,7 @@ class ParserWalk:
             if not isinstance(c, ast.Call):
                 continue
             f = ast.unparse(c.func)
-            if f == 'cfg.has_option' and len(c.args) == 2 and isinstance(
+            if f == f'{self.cfg}.has_option' and len(c.args) == 2 and isinstance(
                     c.args[0], ast.Constant):
                 self.record(c.args[0].value, c.args[1])
             elif f.endswith('.pop') and isinstance(c.func.value, ast.Name) \
@@ -102,9 +115,9 @@ class ParserWalk:
             t = 'bool'
         elif 'getint' in txt:
             t = 'int'
-        elif 'getfloat' in txt or 'float(cfg.get(' in txt:
+        elif 'getfloat' in txt or f'float({self.cfg}.get(' in txt:
             t = 'float'
-        elif 'cfg.get(' in txt:
+        elif f'{self.cfg}.get(' in txt:
             t = 'str'
         else:
             return
@@ -127,7 +140,7 @@ class ParserWalk:
                 elif isinstance(v, ast.Call) and ast.unparse(v.func) == \
                         'dict' and v.args and isinstance(
                             v.args[0], ast.Call) and ast.unparse(
-                                v.args[0].func) == 'cfg.items':
+                                v.args[0].func) == f'{self.cfg}.items':
                     self.sections[name] = v.args[0].args[0].value
                     self.remainders[name] = v.args[0].args[0].value
                 self.scan_calls(st)
@@ -167,24 +180,25 @@ class ParserWalk:
                 t = st.test
                 ttxt = ast.unparse(t)
                 if isinstance(t, ast.Call) and ast.unparse(t.func) == \
-                        'cfg.has_option' and isinstance(t.args[0],
-                                                        ast.Constant):
+                        f'{self.cfg}.has_option' and isinstance(
+                            t.args[0], ast.Constant):
                     self.classify(st.body, t.args[0].value, t.args[1])
                 if isinstance(t, ast.Name) and t.id in self.remainders and \
                         any(isinstance(b, ast.Raise) for b in st.body):
                     self.raises.add(t.id)
                 # precedence: `if term[X] is not None` first, config in elif
-                if "term[" in ttxt and 'is not None' in ttxt:
+                if f"{self.term}[" in ttxt and 'is not None' in ttxt:
                     els = st.orelse
                     if len(els) == 1 and isinstance(els[0], ast.If) and \
-                            'cfg.has_option' in ast.unparse(els[0].test):
+                            f'{self.cfg}.has_option' in ast.unparse(
+                                els[0].test):
                         for k in self.vals(els[0].test.args[1]):
                             self.term_first[k] = True
-                elif 'cfg.has_option' in ttxt:
+                elif f'{self.cfg}.has_option' in ttxt:
                     for e in ast.walk(ast.Module(st.orelse, [])):
-                        if isinstance(e, ast.If) and 'term[' in ast.unparse(
-                                e.test) and 'is not None' in ast.unparse(
-                                    e.test):
+                        if isinstance(e, ast.If) and f'{self.term}[' in \
+                                ast.unparse(e.test) and 'is not None' in \
+                                ast.unparse(e.test):
                             for k in self.vals(t.args[1]):
                                 self.term_first[k] = False
                 self.walk(st.body)
@@ -230,8 +244,11 @@ def accepted(ctx):
             gk.add(c.args[0].value)
     ctx.anchor(len(gk) >= 10, 'keys consumed by estimate_gridding_opts')
     sm = sim.method('Simulation', '_set_model')
-    gk |= {c.args[0].value for c in au.calls(sm, 'g_opts.pop')
-           if c.args and isinstance(c.args[0], ast.Constant)}
+    gk |= {c.args[0].value for c in ast.walk(sm) if isinstance(c, ast.Call)
+           and isinstance(c.func, ast.Attribute) and c.func.attr == 'pop' and
+           ast.unparse(c.func.value) not in ('kwargs',) and c.args and
+           isinstance(c.args[0], ast.Constant) and c.args[0].value ==
+           'expand'}
     out['gridding_opts'] = gk
     from .c17 import Classes
     C = Classes(ctx)
@@ -379,17 +396,26 @@ def run(ctx):
                       ctx.where(pm, fn), sample={'section': s, 'key': k})
     ctx.floor('C18.Q2.accepted', 55)
     # the parsed sections reach the API entry points
-    rtxt = ast.unparse(rs)
-    for pat, what in (("**cfg['simulation_options']", 'Simulation(**options)'),
-                      ("**cfg['noise_kwargs']", 'compute(**noise options)'),
-                      ("data.get('sources', None)", 'survey.select(sources)'),
-                      ("data.get('receivers', None)", 'select(receivers)'),
-                      ("data.get('frequencies', None)", 'select(frequencies)'),
-                      ("data.get('remove_empty', False)",
-                       'select(remove_empty)')):
-        ctx.check('C18.Q2.routing', f'cli.run: {what}', pat in rtxt,
-                  f'the parsed options are not passed on (`{pat}` missing)',
+    pc = find('_cfg_, _term_ = parser.parse_config_file(__)', rs)
+    ctx.anchor(len(pc) == 1, 'parse_config_file call in cli.run')
+    CFG = pc[0][1]['_cfg_']
+    dsel = find(f"_d_ = {CFG}['data']", rs)
+    D = dsel[0][1]['_d_'] if dsel else 'data'
+    routes = [
+        ('Simulation(**options)', f"simulations.Simulation(survey=__, "
+         f"model=__, verb=__, **{CFG}['simulation_options'])"),
+        ('compute(**noise options)',
+         f"_s_.compute(observed=True, **{CFG}['noise_kwargs'])"),
+        ('survey.select(...)',
+         f"_s_.select(sources={D}.get('sources', None), "
+         f"receivers={D}.get('receivers', None), "
+         f"frequencies={D}.get('frequencies', None), "
+         f"remove_empty={D}.get('remove_empty', False))")]
+    for what, pat in routes:
+        ctx.check('C18.Q2.routing', f'cli.run: {what}', has(pat, rs),
+                  f'the parsed options are not passed on to {what}',
                   ctx.where(rm, rs))
+    ctx.floor('C18.Q2.routing', 3)
     # Q3
     mm = ctx.repo.mod(MAIN)
     mf = mm.func('main')
@@ -411,17 +437,20 @@ def run(ctx):
     popped = set()
     for c in ast.walk(fn):
         if isinstance(c, ast.Call) and ast.unparse(c.func) == \
-                'args_dict.pop' and isinstance(c.args[0], ast.Constant):
+                f'{W.args}.pop' and isinstance(c.args[0], ast.Constant):
             popped.add(c.args[0].value)
     # keys popped inside literal loops
     for n in ast.walk(fn):
         if isinstance(n, ast.For) and au.const_list(n.iter) and any(
                 isinstance(c, ast.Call) and ast.unparse(c.func) ==
-                'args_dict.pop' for c in ast.walk(n)):
+                f'{W.args}.pop' for c in ast.walk(n)):
             popped |= set(au.const_list(n.iter))
+    ad = find('_a_ = vars(_p_.parse_args(__))', mf)
+    ctx.anchor(len(ad) == 1, 'argument dictionary in cli.main')
     for c in ast.walk(mf):
-        if isinstance(c, ast.Call) and ast.unparse(c.func) == 'args_dict.pop' \
-                and isinstance(c.args[0], ast.Constant):
+        if isinstance(c, ast.Call) and ast.unparse(c.func) == \
+                f'{ad[0][1]["_a_"]}.pop' and isinstance(c.args[0],
+                                                        ast.Constant):
             popped.add(c.args[0].value)
     ctx.check('C18.Q3.terminal', 'argparse destinations == popped keys',
               dests == popped, f'only in argparse: {sorted(dests - popped)}; '
@@ -434,15 +463,21 @@ def run(ctx):
                   W.term_first.get(k) is True,
                   f'the terminal value of `{k}` is not tested before the '
                   'configuration-file value', ctx.where(pm, fn))
-    ftxt = ast.unparse(fn)
-    ctx.check('C18.Q4.precedence', '[files] file names',
-              'fname = term.pop(key)\n        if fname is None:\n'
-              '            fname = config_or_default' in ftxt,
+    T = W.term
+    f1 = find(f'_f_ = {T}.pop(_k_)', fn)
+    ok = False
+    for n_, b_ in f1:
+        if has(f'if {b_["_f_"]} is None:\n    {b_["_f_"]} = _d_', fn) and \
+                has(f'_d_ = _all_.pop({b_["_k_"]}, __)', fn):
+            ok = True
+    ctx.check('C18.Q4.precedence', '[files] file names', ok,
               'terminal file names do not override the configuration file',
               ctx.where(pm, fn))
-    ctx.check('C18.Q4.precedence', '[files] path',
-              "path = term.pop('path')\n    if path is None:\n"
-              "        path = all_files.pop('path', '.')" in ftxt,
+    p1 = find(f"_p_ = {T}.pop('path')", fn)
+    ok = len(p1) == 1 and has(
+        f"if {p1[0][1]['_p_']} is None:\n    {p1[0][1]['_p_']} = "
+        "_all_.pop('path', '.')", fn)
+    ctx.check('C18.Q4.precedence', '[files] path', ok,
               'terminal --path does not override the configuration file',
               ctx.where(pm, fn))
     # Q5
